@@ -15,3 +15,4 @@ from . import crs_c  # noqa: F401
 from . import outgeobox_c  # noqa: F401
 from . import rio_c  # noqa: F401
 from . import xr_c  # noqa: F401
+from . import dask_c  # noqa: F401
